@@ -82,6 +82,7 @@ namespace simpl
     std::vector<double> rate_constants;       // [cell][reaction] after CalculateRateConstants
     std::vector<double> atol;                 // by canonical species
     bool map_ok = true;
+    std::size_t be_clipped = 0;               // values backward Euler clipped to zero during the solves (hook)
   };
 
   inline Mech read_mech(Toks& tk)
@@ -306,6 +307,9 @@ namespace simpl
         for (std::size_t r = 0; r < m.rxns.size(); ++r)
           o.rate_constants.push_back(state.rate_constants_[cidx][r]);
       auto params = make_params(pb);
+#if defined(KIND_BE) && defined(MICM_VERIF_HOOKS)
+      const std::size_t clipped_before = micm::verif_hooks::be_clipped_values;
+#endif
       for (int s = 0; s < pb.nsteps; ++s)
       {
         if (pb.poison)
@@ -315,6 +319,9 @@ namespace simpl
         else
           o.results.push_back(solver.Solve(pb.dt, state, params));
       }
+#if defined(KIND_BE) && defined(MICM_VERIF_HOOKS)
+      o.be_clipped = micm::verif_hooks::be_clipped_values - clipped_before;
+#endif
       o.y.assign(pb.ncells * ns, 0);
       for (std::size_t id = 0; id < ns; ++id)
       {
@@ -555,7 +562,7 @@ namespace simpl
         for (std::size_t cidx = 0; cidx < pb.ncells; ++cidx)
         {
           long double before = 0, after = 0, mag = 0;
-          bool clipped = false;
+          bool clipped = o.be_clipped != 0;   // backward Euler clips inside its iterations: the property excludes such runs
           for (std::size_t id = 0; id < ns; ++id)
           {
             before += (long double)w[id] * pb.y0[cidx * ns + id];
@@ -584,8 +591,51 @@ namespace simpl
         for (std::size_t s = 0; same_status && s < outs[0].results.size(); ++s)
           if (outs[i].results[s].state_ != outs[0].results[s].state_)
             same_status = false;
+        // concentrations are comparable only when every call of both configurations integrated the whole interval:
+        // a run that stops early (step too small, step limit) stops at a time that depends on rounding
+        bool both_converged = same_status;
+        for (std::size_t s = 0; both_converged && s < outs[0].results.size(); ++s)
+          if (outs[0].results[s].state_ != micm::SolverState::Converged)
+            both_converged = false;
+        // same step history: the results may differ by rounding only.  A different history (an accept / reject
+        // decision within rounding of its threshold) is a different discretisation: the results then agree to the
+        // accuracy the controller was asked for, atol_i + rtol |y_i|, times a global-error allowance
+        bool same_history = same_status;
+        for (std::size_t s = 0; same_history && s < outs[0].results.size(); ++s)
+          if (outs[i].results[s].stats_.number_of_steps_ != outs[0].results[s].stats_.number_of_steps_ ||
+              outs[i].results[s].stats_.accepted_ != outs[0].results[s].stats_.accepted_)
+            same_history = false;
         bool conc = close(outs[0].y, outs[i].y, 1e-7, 1e-12);
+        if (!conc && !same_history && outs[0].y.size() == outs[i].y.size() && outs[0].atol.size() == ns)
+        {
+          conc = true;
+          for (std::size_t q = 0; q < outs[0].y.size(); ++q)
+          {
+            const double a = outs[0].y[q], b = outs[i].y[q];
+            const double allow = 1.0e3 * (outs[0].atol[q % ns] + pb.rtol * std::max(std::fabs(a), std::fabs(b)));
+            if (!(std::fabs(a - b) <= allow) && !(std::isnan(a) && std::isnan(b)) && a != b)
+              conc = false;
+          }
+          if (conc)
+            out.tok("NOTE_CONFIGS_DIFFERENT_HISTORY_COMPARED_AT_SOLVER_TOLERANCE");
+        }
         if (!conc)
+        {
+          double worst = 0;
+          for (std::size_t q = 0; q < outs[0].y.size() && q < outs[i].y.size(); ++q)
+          {
+            double a = outs[0].y[q], b = outs[i].y[q];
+            double d = std::fabs(a - b) / std::max({ std::fabs(a), std::fabs(b), 1e-300 });
+            if (std::isfinite(d))
+              worst = std::max(worst, d);
+          }
+          char buf[64];
+          std::snprintf(buf, sizeof buf, "NOTE_MAX_RELATIVE_DIFFERENCE=%.3g", worst);
+          out.tok(buf);
+        }
+        if (!conc && !both_converged)
+          out.tok("NOTE_CONFIGS_NOT_COMPARED_EARLY_STOP");
+        else if (!conc)
           out.tok("ORACLE_CONFIGS_DISAGREE_ON_CONCENTRATIONS");
         else if (!same_status)
           out.tok("NOTE_CONFIGS_DIFFERENT_STATUS");
